@@ -88,22 +88,22 @@ Print Assumptions C05_del_exact.
 (* ---- a failed operation changes nothing.
    FULL statement (DESIGN.md C05_err_unchanged): for every op, step s o = Err s' -> s' = s.
    Proved (1) for the atomic operations (add_atom incl. a malformed coordinate, new_atom, del_atom,
-   connect, append_bond(s), del_bond) and (2) for remove_substituent(a1, a2) with a1 given as an Atom
-   object and a1 <> a2: once the checks at its beginning have passed, none of the deletions, the
-   add_atom or the connect can raise (uses the BFS invariant: every yielded atom is an atom of the
-   molecule, none is yielded twice, a1 is never yielded).
+   connect, append_bond(s), del_bond) and (2) for remove_substituent(a1, a2) whenever the two
+   designators -- Atom, position, label or element -- name different atoms: once the checks at its
+   beginning have passed, none of the deletions, the add_atom or the connect can raise (uses the BFS
+   invariant: every yielded atom is an atom of the molecule, none is yielded twice, a1 is never
+   yielded; and the repair that resolves a1 and a2 once before anything is deleted).
    NOT proved, because false for the code as it is: remove_substituent(a, a) on a self-loop deletes a
    and then fails to connect; add_implicit_hydrogens with several targets raises at a later target that
-   is not an atom of the molecule after the earlier ones were completed.  Not proved although true:
-   remove_substituent with a1 designated by label / element.  For all of those C05_inv_step and
+   is not an atom of the molecule after the earlier ones were completed.  For those C05_inv_step and
    C05_keeps_step still cover the state that is left behind. *)
 Theorem C05_err_unchanged_partial : forall s o s', Inv s -> atomic o = true -> step s o = Err s' -> s' = s.
 Proof. exact err_unchanged. Qed.
 Print Assumptions C05_err_unchanged_partial.
 
-Theorem C05_err_unchanged_remove_substituent_partial : forall s x1 s2 l s', Inv s ->
-  (forall a2, get_atom s s2 = Some a2 -> a_id a2 <> x1) ->
-  step s (RemoveSubst (ByObj x1) s2 l) = Err s' -> s' = s.
+Theorem C05_err_unchanged_remove_substituent_partial : forall s s1 s2 l s', Inv s ->
+  (forall a1 a2, get_atom s s1 = Some a1 -> get_atom s s2 = Some a2 -> a_id a2 <> a_id a1) ->
+  step s (RemoveSubst s1 s2 l) = Err s' -> s' = s.
 Proof. exact rs_err_unchanged. Qed.
 Print Assumptions C05_err_unchanged_remove_substituent_partial.
 
@@ -128,7 +128,7 @@ Definition ex_h : list op :=
   [ AddAtom 7%N (Some 3%N) (Some 14%Z) (Some 104%Z); Connect (ByIdx 0) (ByObj 4%positive);
     AddAtom 6%N None None None;                       (* malformed coordinate: raises, nothing changes *)
     DelAtom (ByElem 8%N); AppendBonds [(3%positive, 4%positive)]; DelBond 4%positive 3%positive;
-    RemoveSubst (ByObj 1%positive) (ByLabel 3%N) None; AddHs [(1%positive, [21%Z; 22%Z])];
+    RemoveSubst (ByIdx 0) (ByLabel 3%N) None; AddHs [(1%positive, [21%Z; 22%Z])];
     DelAtom (ByIdx (-1)%Z) ].
 Example C05_nonvacuous :
   inv_b ex_s0 = true /\
